@@ -185,7 +185,9 @@ def run(rep, tier, seed):
     rep.cov["distinct_nontrivial"] = len({(it["kind"], it["ctx"], it["src"].count("\n")) for it in items})
     rep.cov["rule"] = ("one failing construct (15 kinds) x 7 contexts (top level, block, if body, loop body, function, two "
                        "call levels, if condition) x random preceding code (blank lines, comments, lets, multi-line "
-                       "functions, filter statements, string / character / byte literals spanning lines; 20% with CRLF); distinct = "
+                       "functions, filter statements, string / character / byte literals spanning lines; 20% with CRLF); the failing "
+                       "construct inside an expression written over several lines (12 placements) and match range comparisons that fail on "
+                       "an arm's line; through the drivers: leading blank lines, scripts of 65 534+ lines; filter-only failures; distinct = "
                        "distinct (kind, context, error line position)")
     rep.cov["exhaustive"] = False
     for it in items[:2]:
